@@ -39,11 +39,11 @@ def generate(rng, tier):
         yield from S.exhaustive_single_ops(3, S.IDX_SMALL, S.STEPS_SMALL, "pl")
         nh = 2000
     elif tier == "thorough":
-        idx = [None] + list(range(-7, 8))
+        idx = [None] + list(range(-8, 9))
         steps = [None, 1, -1, 2, -2, 3, -3, 4, -4]
-        yield from S.exhaustive_single_ops(5, idx, steps, "tl")
-        yield from S.exhaustive_single_ops(5, idx, steps, "pl")
-        nh = 60000
+        yield from S.exhaustive_single_ops(6, idx, steps, "tl")
+        yield from S.exhaustive_single_ops(6, idx, steps, "pl")
+        nh = 100000
     else:  # intense: failing-input search after a broken proof / correspondence
         idx = [None] + list(range(-6, 7))
         yield from S.exhaustive_single_ops(4, idx, S.STEPS_SMALL + [4, -4], "tl")
